@@ -193,3 +193,11 @@ func cbRun(w *world.World, t *cbTruth) (*world.Reply, *obs.Msg) {
 	rep := callbackReq(w, t.Host, t.StoredID)
 	return rep, obs.Decode(rep)
 }
+
+func parsePEMCert(b []byte) (*x509.Certificate, error) {
+	blk, _ := pem.Decode(b)
+	if blk == nil {
+		return nil, fmt.Errorf("no PEM block")
+	}
+	return x509.ParseCertificate(blk.Bytes)
+}
